@@ -16,13 +16,14 @@ CONSTANTS MaxLen, ExportLen,
           ReadKeys, ReadProbes,   \* arguments of `in` / Unit(str)
           BinP, BinF,             \* unit strings / operators of binary operations (subsets of BinProbes / BinOps)
           CopyP, PickleP,         \* unit strings of copied units / of pickled quantities
-          ConvHows                \* conversion methods (subset of Hows)
+          ConvHows,               \* conversion methods (subset of Hows)
+          HandleH                 \* ways of obtaining a second registry object on the same table (subset of HandleHows)
 
 \* a re-binding with bypass_validation=True is only generated as the LAST call of a history: on today's code it
 \* re-binds the caller's Unit object (known finding), after which every later call is a consequence of that
 NoBypassYet == \A i \in DOMAIN hist : ~(hist[i].op = "rebind" /\ hist[i].bypass)
 Edits(r) ==
-  \/ \E s \in Syms, sc \in (IF r = 0 THEN DScales ELSE AddScales), px \in (IF r = 0 THEN DPfx ELSE BOOLEAN) : Add(r, s, sc, px)
+  \/ \E s \in Syms, sc \in (IF regs[r].d = 0 THEN DScales ELSE AddScales), px \in (IF regs[r].d = 0 THEN DPfx ELSE BOOLEAN) : Add(r, s, sc, px)
   \/ \E k \in Keys, sc \in ModScales : Modify(r, k, sc)
   \/ \E k \in Keys : Remove(r, k)
 Reads(r) ==
@@ -33,6 +34,7 @@ Creations ==
   \/ NewPlain(TRUE, "cgs")
   \/ \E src \in RegIds, defs \in BOOLEAN : NewLutAlias(src, defs)
   \/ \E src \in RegIds : NewLutCopy(src) \/ FromJson(src) \/ DeepCopyReg(src)
+  \/ \E src \in RegIds, how \in HandleH : ShallowHandle(src, how)
   \/ \E src \in RegIds, p \in PickleP : Unpickle(src, p)
   \/ \E src \in RegIds, p \in CopyP, deep \in BOOLEAN : UnitCopy(src, p, deep)
 NsOps(r) == MkUnitSystem(r, "kfoo") \/ MkUnitSystem(r, "km") \/ MkUnitSystem(r, "foo") \/ AddSymbols(r) \/ AddConstants(r)
@@ -43,7 +45,7 @@ MixedOps ==
 
 Next == /\ Len(hist) < MaxLen /\ NoBypassYet
         /\ \/ (Editing /\ \E r \in RegIds : Edits(r) \/ Reads(r))
-           \/ (Editing /\ \E sc \in DScales, px \in DPfx : DefineDefault(sc, px))
+           \/ (Editing /\ \E r \in RegIds, sc \in DScales, px \in DPfx : DefineUnit(r, sc, px))
            \/ Creations
            \/ (Namespaces /\ \E r \in RegIds : NsOps(r))
            \/ (Mixed /\ MixedOps)
@@ -55,7 +57,7 @@ LastKind == IF hist = <<>> THEN <<>> ELSE LET e == hist[Len(hist)] IN
             IF e.op \in {"binop", "rebind", "convert"}
             THEN <<e.op, e.r = 0, e.r2 = 0, e.r = e.r2, IF e.op = "binop" THEN e.fn ELSE IF e.op = "convert" THEN e.how ELSE "",
                    IF e.op = "binop" THEN e.warm ELSE FALSE>>
-            ELSE IF e.r = 0 /\ e.op \in {"modify", "remove"} THEN <<e.op, e.r, e.sym>>   \* every refusal of the default registry
+            ELSE IF regs[e.r].d = 0 /\ e.op \in {"modify", "remove"} THEN <<e.op, e.r, e.sym>>   \* every refusal of the default table
             ELSE <<e.op, e.r>>
 \* NoBypassYet is a guard on the hidden history, so it must be visible too (otherwise a dead-end representative
 \* could shadow a live state with the same dictionaries)
